@@ -130,7 +130,7 @@ func (loop *EventLoop) schedule(call goja.FunctionCall, repeating bool) goja.Val
 		loop.jobs = append(loop.jobs, job)
 		return ret
 	}
-	return nil
+	return goja.Undefined()
 }
 
 // msToDuration converts a delay in milliseconds, saturating instead of overflowing.
@@ -162,7 +162,7 @@ func (loop *EventLoop) setImmediate(call goja.FunctionCall) goja.Value {
 		f := func() { fn(nil, args...) }
 		return loop.vm.ToValue(loop.addImmediate(f))
 	}
-	return nil
+	return goja.Undefined()
 }
 
 // SetTimeout schedules to run the specified function in the context
